@@ -404,6 +404,25 @@ func c08History(run *hx.Run, o *hx.Oracle, dir string, h int, steps int) {
 			return
 		}
 	}
+	// last step of some histories: another connection switches the database to WAL and commits there
+	// (connection kept open, WAL not merged). The then-current content is not readable any more by a
+	// rollback-journal reader: every read must fail, none may return the remembered state.
+	if h%2 == 0 {
+		if err := o.Open("walconn", path, 1); err == nil {
+			if err := o.ExecConn("walconn", "PRAGMA journal_mode=WAL", "INSERT INTO t(v, ver, pad) VALUES(1, 99999, 'only in the WAL')"); err == nil {
+				for _, name := range []string{"t", "meta"} {
+					got, err, _ := collectSelect(db, name, []string{"rowid"})
+					run.Eval(1)
+					if err == nil {
+						fail("stale/after-switch-to-wal", fmt.Sprintf("the database was switched to WAL mode by another connection; Select(%s) on the long-lived handle still returns %d rows and no error", name, len(got)), steps+1)
+						break
+					}
+				}
+				run.See("write_kind", "switch-to-wal")
+			}
+			o.CloseConn("walconn")
+		}
+	}
 	pages, _ := o.Query(path, "PRAGMA page_count")
 	if len(pages) == 1 {
 		if n, _ := pages[0][0].(int64); n > 100 {
